@@ -119,8 +119,12 @@ def run_point(res, length, width, b_min, bx, by, gens):
 
 def run_nearsquare(res, length, b):
     case = {"length": length, "b": b, "gen": "nearsquare"}
-    n = int(floor(length / b) + 1)  # DesignNearSquare.__init__
-    dom, desc = _dom.square_and_near_square(1, n, b)
+    # the candidate list as the real design class builds it (DesignNearSquare.__init__ through GHEManager.set_design)
+    from vf import scenarios
+
+    m = scenarios.build_manager("nearsquare", geo={"b": b, "length": length})
+    dom, desc = m._design.coordinates_domain, m._design.fieldDescriptors
+    n = len(dom) // 2
     counts = []
     idx = 0
     for i in range(1, n + 1):
@@ -135,7 +139,7 @@ def run_nearsquare(res, length, b):
             counts.append(len(f))
             idx += 1
     if idx != len(dom):
-        res["violations"].append(core.viol("nearsquare_extra_candidates", case, msg=f"near-square list has {len(dom)} entries, expected {idx}", gen="nearsquare"))
+        res["violations"].append(core.viol("nearsquare_not_a_lattice", dict(case, where=idx), msg=f"near-square list has {len(dom)} entries: not pairs of n x n / n x (n+1) grids", gen="nearsquare"))
     check_order(res, case, "nearsquare", counts)
     res.outcome("nearsquare")
 
@@ -164,9 +168,8 @@ def run_case(case):
     elif case["chunk"] == "nearsquare":
         for length in case["lengths"]:
             for b in case["bs"]:
-                if b <= length:
-                    run_nearsquare(res, length, b)
-                    res["nontrivial"] += 1
+                run_nearsquare(res, length, b)  # including land sides shorter than one spacing (only the single borehole and 1 x 2 fit)
+                res["nontrivial"] += 1
         res["sample"] = {"gen": "nearsquare", "length": case["lengths"][0], "b": case["bs"][0]}
     elif case["chunk"] == "rounding":
         b = case["b"]
@@ -194,7 +197,7 @@ def main(run: core.Run, only=None):
             cases.append({"chunk": "lot", "length": float(L), "width": float(W), "bmin": bmin, "bmax": bmax,
                           "gens": ["rectangle", "birectangle", "bizoned"]})
     run.drive(cases, family="lot-lattice", chunksize=1)
-    run.drive([{"chunk": "nearsquare", "lengths": [float(x) for x in SIDES], "bs": [float(x) for x in BMIN + BMAX + [0.7, 1.1, 20.0]]}],
+    run.drive([{"chunk": "nearsquare", "lengths": [float(x)], "bs": [float(y) for y in BMIN + BMAX + [0.7, 1.1, 20.0, 6.096]]} for x in SIDES + [3.0, 5.0, 155.0]],
               family="nearsquare")
     run.drive([{"chunk": "rounding", "b": b, "ks": [k], "gens": ["rectangle", "birectangle", "bizoned"]}
                for b in ((0.3, 3.3) if quick else (0.1, 0.3, 0.7, 1.1, 3.3)) for k in (range(2, 41, 2) if quick else range(2, 41))], family="float-rounding")
